@@ -1,5 +1,5 @@
 SPECIFICATION Spec
-CONSTANTS Rich = TRUE
+CONSTANTS Level = 3
  MutDepth = 3
 INVARIANT SchemaTyped
 INVARIANT RefSound
